@@ -36,7 +36,7 @@ class BucketSpec:
             return self._query()
         except S.Unsupported as e:
             # the current source uses a construct the translator cannot encode: the solver cannot decide.  A reproduced
-            # disagreement with the specification on a fixed grid is still a violation; none found => harness error.
+            # disagreement with the specification on a fixed grid is still a violation; none found => inconclusive (stated in the evidence).
             import itertools
             nan = float('nan')
             specials = ['income', 'INCOME', 'Transfer', 'investment', 'InVestment']
@@ -51,7 +51,10 @@ class BucketSpec:
                         return {'status': 'REFUTED', 'args': {'amount': a, 'tags': t}, 'solver_queries': 0, 'solver_time_s': 0.0, 'paths': 0,
                                 'message': 'translator: %s; disagreement with the specification found on the fallback grid' % e,
                                 'extra': {'translator_unsupported': str(e), 'decided_by': 'fallback grid (not the solver)'}}
-            raise
+            # nothing found: the solver could not decide and the grid is no proof => inconclusive, said so
+            return {'status': 'UNKNOWN', 'solver_queries': 0, 'solver_time_s': 0.0, 'paths': 0,
+                    'message': 'translator cannot encode the current source (%s); the fallback grid found no disagreement with the specification: inconclusive' % e,
+                    'extra': {'translator_unsupported': str(e), 'decided_by': 'nothing (fallback grid silent)'}}
 
     def _query(self):
         import z3
